@@ -289,3 +289,27 @@ _ADDED4 = {
 }
 for _id, _more in _ADDED4.items():
     CHECKS[_id]["text"] += _more
+
+
+# what the fifth strengthening round added
+_ADDED5 = {
+    "C01": " Round 5: half of the configurations run under TZ=XYZ-3:30 (the process time zone is an environment dimension); the serializer of a connected proxy is switched and compared with a fresh proxy.",
+    "C02": " Round 5: the reserved dunder list is held against a frozen copy; a class exposed as a whole that defines 16 reserved names itself, every request kind.",
+    "C03": " Round 5: calls whose only argument is a SerializedBlob (normal and oneway).",
+    "C04": " Round 5: alias spellings of the builtins namespace; application subclasses of URI/Proxy/Daemon loaded in the process.",
+    "C05": " Round 5: compressed messages whose payload is a valid prefix of a deflate stream (cut / empty); every stream once more with debug logging on (log arguments really formatted).",
+    "C07": " Round 5: content whose serialisation fails with errors of seven further classes, a half-built __slots__ object.",
+    "C08": " Round 5: CONNECT for a weakly registered object that has died while its registry entry is still there.",
+    "C09": " Round 5: creator with a permissive signature raising TypeError once; connections that outlive Daemon.close() keep the daemon's single instance.",
+    "C10": " Round 5: the other connection fetches from a stream it does not own.",
+    "C11": " Round 5: a failing member whose exception class has application-registered converters; a member returning an exception object as a value.",
+    "C12": " Round 5: a daemon whose annotations() returns one persistent dict; requests without annotations, one of which marks its own request annotations in place.",
+    "C13": " Round 5: forty tracked resources dropped without untracking and forty new ones tracked (address reuse after collection).",
+    "C15": " Round 5: a query in progress while two writers arrive (3 threads, 2 preemptions); the name server's real AutoCleaner makes one pass as a concurrent actor.",
+    "C17": " Round 5: bursts of 8-64 consecutive retryable errors before / between fragments and partial writes.",
+    "C18": " Round 5: pool scripts under debug logging (a handler that formats every record while the pool's locks are held).",
+    "C19": " Round 5: a PYRONAME / PYROMETA proxy that travels, is bound through a real name server, is released, and travels again (4 serializers + copy).",
+    "C20": " Round 5: ';' and '%3B' in query strings.",
+}
+for _id, _more in _ADDED5.items():
+    CHECKS[_id]["text"] += _more
